@@ -33,6 +33,9 @@ def run(ctx: Ctx):
     from .common import order_index_sign_tests
 
     order_index_sign_tests(ctx, "order-index-sign")
+    from .common import generic_lints
+
+    generic_lints(ctx)
 
 
 def provenance(ctx: Ctx):
